@@ -366,7 +366,13 @@ def work(task):
     acts = actions_for(entry)
     n = 0
     bad = []
-    for hist in itertools.product(acts, repeat=gens):
+    from . import codec
+
+    for hi, hist in enumerate(itertools.product(acts, repeat=gens)):
+        if hi % 10 == 0:
+            # an earlier FAILED save / encode in the same process must not
+            # leak into the tables written next
+            codec.poison()
         n += 1
         for sig, detail in run_history(entry, where, hist):
             if len(bad) < 20:
